@@ -51,6 +51,9 @@ def search(ctx):
         d = st0.pos.size
         Om = np.block([[np.zeros((d, d)), np.eye(d)], [-np.eye(d), np.zeros((d, d))]])
         for iname, integ in zoo.integrators_for(name, s, 0.05).items():
+            if hasattr(integ, "fixed_point_solver_kwargs"):
+                # finite differences amplify the error of an implicit solve by 1 / (2h): solve to near machine precision
+                integ.fixed_point_solver_kwargs = dict(integ.fixed_point_solver_kwargs, convergence_tol=1e-13, max_iters=300)
             for nsteps in (1, 3):
                 def stepz(z):
                     r = ChainState(pos=z[:d].copy(), mom=z[d:].copy(), dir=1)
